@@ -26,6 +26,8 @@ struct gm_params {
 	unsigned live; /* frozen LPs keep re-scheduling their tick (no state change): the event population never dies out, so a run can end
 	               * only through the termination predicates / termination time (no Lean twin: implementation-side oracles only) */
 	unsigned fwd_tok; /* V2-only mode: zero-delay forwards of IDENTICAL content to the next LP (bit 1 of the `t0` field of the model line) */
+	unsigned nostate; /* STATELESS LPs: no SetState() (the handler gets a NULL state), no draw at LP_INIT, every event draws from the library
+	                   * RNG and its outputs depend on the draw: the only rollbackable state is the generator (no Lean twin) */
 	unsigned lib; /* also use the floating-point library RNG API (no Lean twin: judged by the implementation-side oracles only) */
 };
 static struct gm_params GM;
@@ -84,6 +86,11 @@ static inline uint64_t gm_threshold(lp_id_t lp)
 static inline uint64_t gm_digest(const struct gm_state *st, const uint64_t rng[4])
 {
 	uint64_t h = GM_FNV_OFF;
+	if(!st) { /* stateless LP: the generator is everything */
+		for(int i = 0; i < 4; ++i)
+			h = gm_fnv_u64(h, rng ? rng[i] : 0);
+		return h;
+	}
 	h = gm_fnv_u64(h, st->cnt);
 	h = gm_fnv_u64(h, st->acc);
 	for(int s = 0; s < GM_SLOTS; ++s) {
@@ -171,6 +178,27 @@ static void gm_process(lp_id_t me, simtime_t now, unsigned type, const void *pl,
 	if(type == LP_FINI) {
 		if(gm_on_fini)
 			gm_on_fini(me, st);
+		return;
+	}
+	if(GM.nostate) {
+		/* stateless variant: see struct gm_params */
+		if(type == LP_INIT) {
+			if(gm_on_init)
+				gm_on_init(me);
+			gm_send(me, 1 + me % 3, GM.n_types - 1, 0, gm_mix(GM.seed ^ me), 0);
+			return;
+		}
+		uint64_t tqn = (uint64_t)(now * 4.0);
+		if(gm_on_dispatch)
+			gm_on_dispatch(me, tqn, type, pl, size, 0);
+		uint64_t a = RandomU64() ^ gm_fnv_bytes(gm_mix(tqn ^ type), pl, size);
+		if(type == GM.n_types - 1)
+			gm_send(me, tqn + GM_DELAYS_Q[1 + (a >> 8) % 6], type, GM_SIZES[(a >> 24) % 8], a, 1);
+		else if(type > 0 && (a & 3))
+			gm_send((a >> 20) % GM.n_lps, tqn + GM_DELAYS_Q[(a >> 12) % 7], type - 1, GM_SIZES[(a >> 28) % 8], a, 1);
+		if(type == GM.n_types - 1 && (a >> 40) % 3 == 0)
+			gm_send((a >> 44) % GM.n_lps, tqn + GM_DELAYS_Q[1 + (a >> 50) % 6], (a >> 54) % GM.n_types ? (a >> 54) % GM.n_types - 1 : 0,
+			    GM_SIZES[(a >> 58) % 8], a, 1);
 		return;
 	}
 	if(type == LP_INIT) {
@@ -264,5 +292,7 @@ static void gm_process(lp_id_t me, simtime_t now, unsigned type, const void *pl,
 static bool gm_can_end(lp_id_t me, const void *st_v)
 {
 	const struct gm_state *st = st_v;
+	if(!st)
+		return false; /* stateless variant: runs end at the termination time */
 	return st->cnt >= gm_threshold(me);
 }
